@@ -111,6 +111,8 @@ class St:
 
     def assume(self, *conds):
         for c in conds:
+            if isinstance(c, bool):
+                c = z3.BoolVal(c)
             if c is not None and not z3.is_true(c):
                 self.pc.append(c)
                 self.note_fact(c)
@@ -127,4 +129,6 @@ class St:
 
 class Obligation:
     def __init__(self, name, hyps, goal, kind='ensures', info=None):
+        if isinstance(goal, bool):
+            goal = z3.BoolVal(goal)
         self.name, self.hyps, self.goal, self.kind, self.info = name, list(hyps), goal, kind, info or {}
